@@ -30,6 +30,14 @@ fixed("F25", "C16", "03b817f", "C16.record-layout|slot|add_bind_pattern|-", "rec
 fixed("F28", "C05", "7077c06", "C05.states-flow|dropped|eval_expr|Apply|eval_expr", "`({ big(1.0); delay })(4.0, 1.0, 2.0)`: the state cells of a delay call's callee expression were dropped from the published layout (try_make_delay early return); the VM wrote 60000 words past the state storage and crashed with SIGSEGV (findings/repro/F28_*.mmm)")
 for _p in ("C05", "C01"):
     fixed("F29", _p, "acf6026", "C05.site-table|cursor-never-advances|delay_sizes", "every `delay` of a function ran on the VM with the ring length of the function's first delay (the position in FuncProto::delay_sizes was never advanced): `delay(4,c,2) + delay(100,c,50)` differed from WASM, and `delay(50000,..)` followed by `delay(4,..)` read and wrote outside the 6-word cell (findings/repro/F29*.mmm)")
+fixed("F30", "C05", "f97a34c", "C05.branch-accounting|isolated|eval_expr|If", "`if (c > 3.0) delay(4.0, c, 2.0) else delay(4.0, c, 1.0)`: the else branch continued the then branch's offset accounting and the function-end pop summed both: VM panicked (state cursor underflow), WASM read header words as samples; the layout held only the larger branch (findings/repro/F30_*.mmm)")
+fixed("F31", "C05", "5eb3d3a", "C05.branch-accounting|isolated|eval_match|Switch", "stateful calls in several arms of a literal `match`: each arm's push assumed the previous arms had run; VM panicked with cursor underflow (findings/repro/F31_*.mmm)")
+fixed("F32", "C05", "6ca1bc7", "C05.branch-accounting|isolated|eval_union_match|Switch", "constructor `match` after a stateful call: each arm reset push_sum / next_state_offset to zero, so the arm's cell was placed on top of the preceding call's cell (c and m shared one counter: 201, 403 instead of 101, 202) while the layout listed them separately (findings/repro/F32_*.mmm)")
+fixed("F32", "C05", "6ca1bc7", "C05.branch-accounting|reset|eval_union_match|push_sum", "same defect: constant reset of push_sum")
+fixed("F32", "C05", "6ca1bc7", "C05.branch-accounting|reset|eval_union_match|next_state_offset", "same defect: constant reset of the pending offset")
+fixed("F33", "C05", "4f28af6", "C05.branch-accounting|isolated|compile_decision_tree|Switch", "stateful calls in several cases of a tuple `match`: cumulative pushes; VM panicked with cursor underflow, WASM returned 131 instead of 101 (findings/repro/F33_*.mmm)")
+for _p in ("C05", "C01"):
+    fixed("F34", _p, "7fb4d49", "C05.site-table|cursor-never-advances|delay_sizes", "after acf6026 the VM selected delay_sizes by the run-time ordinal of the delay: `if (c > 3.0) delay(100.0, c, 2.0) else delay(4.0, c, 2.0)` ran the else delay with ring length 100 on its 6-word cell (garbage samples on the VM, zeros on WASM); the size is now looked up by code position (findings/repro/F34_*.mmm)")
 fixed("F21", "C01", "52a554f", "C01.ops|truthiness|JmpIfNeg|F64Const+F64Gt", "`if` on a NaN condition took the then-branch on the VM (cond <= 0.0 test) and the else-branch on WASM (cond > 0.0)")
 
 # ---- C01 operator templates ---------------------------------------------------------------------------
@@ -59,8 +67,8 @@ add("F8", ["C04"], 'C04.belief|site|compiler::typing::InferContext::infer_type|u
 
 # ---- C05 -------------------------------------------------------------------------------------------------
 add("F17", ["C05", "C07"], "C05.order|concat|compiler::mirgen::Context::eval_expr|Feed|call+cell", "`self` cell: GetState is emitted before the body is evaluated (offset 0 of the function's state) but its skeleton is appended after the body's cells: published layout [Mem, Feed] vs executed getstate@0; mem@1 (fn dsp(){ let y = mem(1.0); self + y })")
-add("F18", ["C05"], "C05.accounting|push|compiler::mirgen::Context::eval_expr|x2", "`if` branches: the padding PushStateOffset is not accounted in push_sum and the bookkeeping is not bracketed around the branches: stateful calls of different sizes in the two branches underflow the VM state cursor (panic in pop_pos), WASM keeps running")
-add("F18", ["C05"], "C05.accounting|push|compiler::mirgen::Context::eval_union_match|x2", "`match` arms: same unaccounted padding; findings/repro/F18_match_branches.mmm panics the VM with `attempt to subtract with overflow` in pop_pos while WASM runs")
+fixed("F18", "C05", "f97a34c", "C05.accounting|push|compiler::mirgen::Context::eval_expr|x2", "`if` branches: the padding PushStateOffset was not accounted in push_sum (stateful calls of different sizes in the two branches underflowed the VM state cursor); the padding is gone, each branch pops what it pushed")
+fixed("F18", "C05", "6ca1bc7", "C05.accounting|push|compiler::mirgen::Context::eval_union_match|x2", "`match` arms: same unaccounted padding (findings/repro/F18_match_branches.mmm panicked the VM in pop_pos while WASM ran); the padding is gone, each arm pops what it pushed")
 
 # ---- C17 -------------------------------------------------------------------------------------------------
 add("F12", ["C17"], "C17.register|arm|GlobalStatement", "module-level `let` is neither mangled nor recorded in visibility_map: `mod m { let secret = 42.0 }` is readable as `secret` from outside (findings/repro/m1.mmm)")
